@@ -1000,6 +1000,10 @@ class ModelsMixin(object):
             return self.str_concat(parts)
         if name == "format":
             self.unsupported("str.format with symbolic arguments")
+        if name in ("strip", "lstrip", "rstrip", "title", "capitalize", "casefold", "swapcase") and not args:
+            f = z3.Function("str_" + name, STR, STR)
+            self.eng.externals_used.add("str.%s on symbolic text (uninterpreted function)" % name)
+            return SStr(f(str_term(recv)))
         if name in ("upper", "lower"):
             # modelled only through an uninterpreted function (case mapping is the library's)
             f = z3.Function("str_" + name, STR, STR)
